@@ -81,6 +81,11 @@ Theorem cow_commit_completes : ltac:(let T := type of CowProofs.cow_commit_compl
 Proof. exact CowProofs.cow_commit_completes. Qed.
 Theorem cow_bounded_work : ltac:(let T := type of CowProofs.cow_bounded_work in exact T).
 Proof. exact CowProofs.cow_bounded_work. Qed.
+(* existence form: from every reachable state of programs that give back every write handle they take and do not
+   call lock() while holding one (CowProofs.releases_writes, decidable; snapshots may be kept for ever) some schedule
+   of at most mu(s) steps finishes every thread *)
+Theorem cow_eventually_finishes : ltac:(let T := type of CowProofs.cow_eventually_finishes in exact T).
+Proof. exact CowProofs.cow_eventually_finishes. Qed.
 
 (* ---------- rcu_guarded / rcu_list ---------- *)
 (* every step of a read operation - registration (lock_read's lazy rcu_read_lock), begin, ++, *, and the whole
